@@ -16,6 +16,7 @@ HERE = os.path.dirname(os.path.dirname(os.path.abspath(__file__)))
 sys.path.insert(0, HERE)
 from yrsa import extract, facts
 
+BASE = os.environ.get('YARA_REPO', '/repo')
 SCR = '/tmp/rn'
 OUT = '/tmp/rn-patches'
 SUFFIX = '_rn'
@@ -82,12 +83,12 @@ def main():
     if os.path.exists(SCR):
         shutil.rmtree(SCR)
     os.makedirs(SCR)
-    subprocess.run(['rsync', '-a', '--exclude', '.git', '/repo/', SCR + '/src/'], check=True)
+    subprocess.run(['rsync', '-a', '--exclude', '.git', BASE + '/', SCR + '/src/'], check=True)
     src = SCR + '/src'
     excluded = {}       # (file, fn) -> set(names)
     for rnd in range(40):
         for path, fns in per_file.items():
-            text = open(os.path.join('/repo', path)).read()
+            text = open(os.path.join(BASE, path)).read()
             # bottom-up so that line numbers stay valid
             for fn, (a, b, names) in sorted(fns.items(), key=lambda kv: -kv[1][0]):
                 ns = names - excluded.get((path, fn), set())
@@ -153,7 +154,7 @@ def main():
     os.makedirs(OUT, exist_ok=True)
     for path, fns in sorted(per_file.items()):
         d = subprocess.run(['diff', '-u', '--label', 'a/' + path, '--label', 'b/' + path,
-                            os.path.join('/repo', path), os.path.join(src, path)],
+                            os.path.join(BASE, path), os.path.join(src, path)],
                            stdout=subprocess.PIPE, text=True).stdout
         if not d:
             continue
@@ -162,6 +163,9 @@ def main():
         total += sum(len(v[2] - excluded.get((path, k), set())) for k, v in fns.items())
         n += 1
     open(os.path.join(OUT, 'all.diff'), 'w').write(allp)
+    json.dump({'functions': {p_: {fn: [v[0], v[1], sorted(v[2] - excluded.get((p_, fn), set()))]
+                                  for fn, v in fns.items()} for p_, fns in per_file.items()}},
+              open(os.path.join(OUT, 'map.json'), 'w'))
     print('%d files, %d identifiers renamed; patches in %s (all.diff = everything)' % (n, total, OUT))
     if '--keep' not in sys.argv:
         shutil.rmtree(SCR)
@@ -169,34 +173,132 @@ def main():
 
 
 def run_checks(props):
-    """apply the combined rename to /repo, run the checks, undo"""
-    st = subprocess.run(['git', '-C', '/repo', 'status', '--porcelain', '--untracked-files=no'],
-                        stdout=subprocess.PIPE, text=True).stdout.strip()
-    if st:
-        sys.exit('/repo has local modifications')
-    subprocess.run(['git', '-C', '/repo', 'apply', '--whitespace=nowarn', os.path.join(OUT, 'all.diff')], check=True)
+    """the checks against a scratch copy of the tree with the combined rename applied"""
+    tree = '/tmp/rn-tree'
+    if os.path.exists(tree):
+        shutil.rmtree(tree)
+    subprocess.run(['rsync', '-a', '--exclude', '.git', BASE + '/', tree + '/'], check=True)
+    subprocess.run(['patch', '-s', '-p1', '-i', os.path.join(OUT, 'all.diff')], cwd=tree, check=True)
     res = {}
-    try:
-        env = dict(os.environ, YRSA_NO_EVIDENCE='1')
-        for p in props:
-            c = subprocess.run([os.path.join(HERE, 'check'), p, '--tier', 'quick'], env=env,
-                               stdout=subprocess.PIPE, stderr=subprocess.STDOUT, text=True)
-            lines = [l for l in c.stdout.splitlines() if re.search(r': R[0-9]+\.[0-9a-z]+:', l) and l.endswith(']')]
-            last = c.stdout.strip().splitlines()[-1] if c.stdout.strip() else ''
-            res[p] = {'exit': c.returncode, 'result': {0: 'silent', 1: 'false-alarm'}.get(c.returncode, 'analysis-broken'),
-                      'last': last[:300], 'reports': [l[:300] for l in lines[:8]]}
-            print('RENAME %s %s' % (p, res[p]['result']))
-            for l in res[p]['reports'][:4]:
-                print('    ' + l[:240])
-            if c.returncode == 2:
-                print('    ' + last[:240])
-    finally:
-        subprocess.run(['git', '-C', '/repo', 'checkout', '--', '.'], check=True)
+    env = dict(os.environ, YRSA_NO_EVIDENCE='1', YARA_REPO=tree, YRSA_CACHE='/tmp/rn-cache')
+    for p in props:
+        c = subprocess.run([os.path.join(HERE, 'check'), p, '--tier', 'quick'], env=env,
+                           stdout=subprocess.PIPE, stderr=subprocess.STDOUT, text=True)
+        lines = [l for l in c.stdout.splitlines() if re.search(r': R[0-9]+\.[0-9a-z]+:', l) and l.endswith(']')]
+        last = c.stdout.strip().splitlines()[-1] if c.stdout.strip() else ''
+        res[p] = {'exit': c.returncode, 'result': {0: 'silent', 1: 'false-alarm'}.get(c.returncode, 'analysis-broken'),
+                  'last': last[:300], 'reports': [l[:300] for l in lines[:8]]}
+        print('RENAME %s %s' % (p, res[p]['result']))
+        for l in res[p]['reports'][:6]:
+            print('    ' + l[:260])
+        if c.returncode == 2:
+            print('    ' + last[:260])
+    if '--keep' not in sys.argv:
+        shutil.rmtree(tree)
     return res
 
 
+def _shift(ranges, diff_text):
+    """function line ranges of the original file -> ranges in the patched file"""
+    hunks = [(int(a), int(b or 1), int(c), int(d or 1)) for a, b, c, d in
+             re.findall(r'^@@ -(\d+)(?:,(\d+))? \+(\d+)(?:,(\d+))? @@', diff_text, re.M)]
+    out = {}
+    for fn, (a, b, names) in ranges.items():
+        da = db = 0
+        for os_, ol, ns_, nl in hunks:
+            delta = nl - ol
+            if os_ + ol - 1 < a:
+                da += delta
+                db += delta
+            elif os_ <= b:
+                db += delta
+        out[fn] = [a + da, b + db, names]
+    return out
+
+
+def run_mutants(ids):
+    """each mutant of the corpus on top of the renamed tree: the mutated file is renamed
+    with the same per-function map (line ranges shifted by the mutant's hunks), every
+    other file comes from the renamed tree.  A breaking mutant must still be reported,
+    a preserving one must stay silent."""
+    fmap = json.load(open(os.path.join(OUT, 'map.json')))['functions']
+    tree = '/tmp/rn-tree'
+    if not os.path.exists(tree):
+        subprocess.run(['rsync', '-a', '--exclude', '.git', BASE + '/', tree + '/'], check=True)
+        subprocess.run(['patch', '-s', '-p1', '-i', os.path.join(OUT, 'all.diff')], cwd=tree, check=True)
+    mdir = os.path.join(HERE, 'mutants')
+    ids = ids or sorted(x[:-5] for x in os.listdir(mdir) if x.endswith('.json') and x not in ('RESULTS.json', 'BUILD.json'))
+    results = {}
+    bad = 0
+    for mid in ids:
+        meta = json.load(open(os.path.join(mdir, mid + '.json')))
+        if meta.get('on_top_of'):
+            # a composed mutant rewrites whole functions: the per-function rename map of
+            # the unchanged tree does not fit the refactored file
+            results[mid] = 'SKIPPED (composed with a refactoring)'
+            continue
+        patch = open(os.path.join(mdir, mid + '.patch')).read()
+        files = re.findall(r'^\+\+\+ b/(\S+)', patch, re.M)
+        mt = '/tmp/rn-mut'
+        if os.path.exists(mt):
+            shutil.rmtree(mt)
+        subprocess.run(['cp', '-al', tree, mt], check=True)
+        ok_apply = True
+        tmp = '/tmp/rn-mut-src'
+        if os.path.exists(tmp):
+            shutil.rmtree(tmp)
+        os.makedirs(tmp)
+        for fp in files:
+            os.makedirs(os.path.dirname(os.path.join(tmp, fp)), exist_ok=True)
+            shutil.copy(os.path.join(BASE, fp), os.path.join(tmp, fp))
+        r = subprocess.run(['patch', '-s', '-p1'], input=patch, text=True, cwd=tmp,
+                           stdout=subprocess.PIPE, stderr=subprocess.STDOUT)
+        if r.returncode != 0:
+            results[mid] = 'PATCH-FAILED'
+            print('RENAMED-MUTANT %-34s %s' % (mid, results[mid]))
+            continue
+        for fp in files:
+            text = open(os.path.join(tmp, fp)).read()
+            if fp in fmap:
+                d = subprocess.run(['diff', '-u', os.path.join(BASE, fp), os.path.join(tmp, fp)],
+                                   stdout=subprocess.PIPE, text=True).stdout
+                ranges = _shift({k: (v[0], v[1], set(v[2])) for k, v in fmap[fp].items()}, d)
+                for fn, (a, b, names) in sorted(ranges.items(), key=lambda kv: -kv[1][0]):
+                    if names:
+                        text = rename_in_range(text, a, b, names)
+            dst = os.path.join(mt, fp)
+            if os.path.exists(dst):
+                os.unlink(dst)
+            open(dst, 'w').write(text)
+        env = dict(os.environ, YRSA_NO_EVIDENCE='1', YARA_REPO=mt, YRSA_CACHE='/tmp/rn-mut-cache')
+        c = subprocess.run([os.path.join(HERE, 'check'), meta['property'], '--tier', 'quick'], env=env,
+                           stdout=subprocess.PIPE, stderr=subprocess.STDOUT, text=True)
+        want = 0 if meta.get('kind') == 'preserving' else 1
+        verdict = ('KILLED' if c.returncode == 1 else 'SILENT-OK' if c.returncode == 0 else 'BROKEN(exit %d)' % c.returncode)
+        okm = c.returncode == want and (want == 0 or meta.get('expect_rule', '') + ':' in c.stdout or
+                                        meta.get('expect_rule', '') in c.stdout)
+        results[mid] = verdict if okm else 'UNEXPECTED:' + verdict
+        if not okm:
+            bad += 1
+        print('RENAMED-MUTANT %-34s %-4s %-7s %s' % (mid, meta['property'], meta.get('expect_rule', ''), results[mid]))
+        if not okm:
+            print('    ' + '\n    '.join(c.stdout.strip().splitlines()[-4:])[:900])
+    shutil.rmtree('/tmp/rn-mut', ignore_errors=True)
+    shutil.rmtree('/tmp/rn-mut-src', ignore_errors=True)
+    shutil.rmtree('/tmp/rn-mut-cache', ignore_errors=True)
+    print('%d mutants on the renamed tree, %d not as expected' % (len(ids), bad))
+    return results
+
+
 if __name__ == '__main__':
-    if '--run' in sys.argv:
+    if '--mutants' in sys.argv:
+        args = [a for a in sys.argv[1:] if not a.startswith('--')]
+        if not os.path.exists(os.path.join(OUT, 'map.json')):
+            main()
+        res = run_mutants(args)
+        if not args:
+            json.dump(res, open(os.path.join(HERE, 'mutants', 'RENAMED.json'), 'w'), indent=1, sort_keys=True)
+    elif '--run' in sys.argv:
         args = [a for a in sys.argv[1:] if not a.startswith('--')]
         if not os.path.exists(os.path.join(OUT, 'all.diff')):
             main()
